@@ -276,8 +276,16 @@ class SymNum(Sym):
     def __bool__(self):
         return CUR.branch(self.e != 0)
 
+    INDEX_MAX = 64
+
     def __index__(self):
-        raise TypeError("symbolic index")
+        # a symbolic integer used as list index / range bound: fork on its value (small non-negative values; larger ones end the path)
+        if self.e.sort() != z3.IntSort():
+            raise TypeError("symbolic non-integer index")
+        for v in range(0, self.INDEX_MAX):
+            if CUR.branch(self.e == v):
+                return v
+        raise Abort()
 
     def __int__(self):
         # int(): truncation towards zero; fork on the integer value is not possible in general -> model as floor for >= 0
